@@ -85,6 +85,7 @@ type leafExp struct {
 	enc     string // "qp", "b64", "8bit"
 	name    string
 	desc    string
+	charset string // body parts: the declared charset ("" = UTF-8)
 }
 
 func encName(s string) string {
@@ -118,7 +119,7 @@ func expectedLeaves(s mb.Msg) (leaves []leafExp, shape string) {
 		if t == "" {
 			t = "text/plain"
 		}
-		leaves = append(leaves, leafExp{kind: "part", idx: i, mtype: t, content: p.Content, enc: enc, desc: p.Desc})
+		leaves = append(leaves, leafExp{kind: "part", idx: i, mtype: t, content: p.Content, enc: enc, desc: p.Desc, charset: p.Charset})
 		ps = append(ps, t)
 	}
 	fileType := func(f mb.File) string {
@@ -259,8 +260,12 @@ func checkRendered(s mb.Msg, raw []byte, root *mimeread.Entity) []finding {
 			add("content/"+cls, "%s: decoded content differs from what was supplied at byte %d (got %d bytes %q…, want %d bytes %q…)", id, k, len(dec), clipb(dec[minInt(k, len(dec)):], 24), len(exp.content), clipb(exp.content[minInt(k, len(exp.content)):], 24))
 		}
 		if exp.kind == "part" {
-			if cs := e.Params["charset"]; !strings.EqualFold(cs, "UTF-8") {
-				add("charset/part", "%s: charset parameter %q, want UTF-8", id, cs)
+			wantCS := "UTF-8"
+			if exp.charset != "" {
+				wantCS = exp.charset
+			}
+			if cs := e.Params["charset"]; !strings.EqualFold(cs, wantCS) {
+				add("charset/part", "%s: charset parameter %q, want %s", id, cs, wantCS)
 			}
 			if d := e.First("Content-Disposition"); d != "" {
 				add("disposition/part", "%s: unexpected Content-Disposition %q", id, d)
